@@ -157,6 +157,47 @@
         }
     }
 
+    /// C13: flush() / evict_all() on a cache WITHOUT a pipe still tell the listener about every record they evict
+    fn flush_and_evict_all_notify(found: &mut Vec<String>) {
+        use futures_util::FutureExt;
+        for via_flush in [true, false] {
+            let rec = Arc::new(Rec::default());
+            let cache: RawCache<Fifo<u64, u64, TestProperties>, ModHasher, HashTableIndexer<Fifo<u64, u64, TestProperties>>> = RawCache::new(RawCacheConfig {
+                capacity: 64, shards: 2, eviction_config: FifoConfig::default(), hash_builder: Default::default(),
+                weighter: Arc::new(|_, _| 1), filter: Arc::new(|_, _| true), event_listener: Some(rec.clone()), metrics: Arc::new(Metrics::noop()),
+            });
+            for k in 0..6u64 { cache.insert(k, k); }
+            if via_flush { if cache.flush().now_or_never().is_none() { continue; } } else { cache.evict_all(); }
+            let mut evicted: Vec<u64> = rec.left.lock().unwrap().iter().filter(|(e, _, _)| *e == Event::Evict).map(|(_, k, _)| *k).collect();
+            evicted.sort();
+            if evicted != (0..6u64).collect::<Vec<_>>() || cache.usage() != 0 {
+                let (label, how) = if via_flush { ("each_flushed_record_notified_once_with_its_event", "flush()") } else { ("each_garbage_notified_once_with_its_event", "evict_all()") };
+                found.push(format!("WITNESS {label} :: fifo capacity=64 shards=2, listener, no pipe: insert(0..6); {how} => usage {}, Evict notifications for {:?}", cache.usage(), evicted));
+                return;
+            }
+        }
+    }
+
+    /// C05: the shard capacities add up to the configured capacity, whatever the remainder: a flooded cache (unit weights,
+    /// no handle held) uses exactly the configured capacity
+    fn capacity_split_adds_up(found: &mut Vec<String>) {
+        for capacity in 1usize..=12 {
+            for shards in 1usize..=4 {
+                // a shard whose share is 0 keeps its newest entry (the documented oversize exception): not this check's business
+                if capacity < shards { continue; }
+                let cache: RawCache<Fifo<u64, u64, TestProperties>, ModHasher, HashTableIndexer<Fifo<u64, u64, TestProperties>>> = RawCache::new(RawCacheConfig {
+                    capacity, shards, eviction_config: FifoConfig::default(), hash_builder: Default::default(),
+                    weighter: Arc::new(|_, _| 1), filter: Arc::new(|_, _| true), event_listener: None, metrics: Arc::new(Metrics::noop()),
+                });
+                for k in 0..(capacity as u64 * 8 + 8) { cache.insert(k, k); }
+                if cache.usage() != capacity {
+                    found.push(format!("WITNESS shares_sum_to_capacity :: fifo capacity={capacity} shards={shards}, unit weights: {} inserts spread over all shards, no handle held => usage {} (configured capacity {capacity})", capacity * 8 + 8, cache.usage()));
+                    return;
+                }
+            }
+        }
+    }
+
     #[test]
     fn verif_witness_shard() {
         let seed: u64 = std::env::var("VERIF_SEED").ok().and_then(|s| s.parse().ok()).unwrap_or(0);
@@ -169,6 +210,8 @@
             if f.is_empty() { pinned_by_lookup(&mut f); }
             if f.is_empty() { phantom_leaves_once(&mut f); }
             if f.is_empty() { resize_reestablishes_bound(&mut f); }
+            if f.is_empty() { flush_and_evict_all_notify(&mut f); }
+            if f.is_empty() { capacity_split_adds_up(&mut f); }
             f
         });
         match r {
